@@ -61,6 +61,8 @@ pub struct Shared {
 struct M<H: Hist> {
     h: H,
     shared: Arc<Mutex<Shared>>,
+    /// the roots this checker instance starts from (the root set is partitioned over instances)
+    roots: Arc<Vec<Vec<H::Act>>>,
 }
 
 fn hkey(s: &str) -> u64 {
@@ -97,7 +99,7 @@ impl<H: Hist> Model for M<H> {
     type Action = H::Act;
     fn init_states(&self) -> Vec<Self::State> {
         crate::common::install_panic_hook();
-        self.h.roots().into_iter().map(|r| self.mk(r)).collect()
+        self.roots.iter().cloned().map(|r| self.mk(r)).collect()
     }
     fn actions(&self, state: &Self::State, actions: &mut Vec<Self::Action>) {
         if state.terminal || state.hist.len() >= self.h.max_len() {
@@ -126,10 +128,33 @@ pub struct Stats {
 /// explore to the history-length bound (or to closure if the graph is finite below it)
 pub fn explore<H: Hist>(h: H, rep: &mut Report, engine_tag: &str, name: &str) -> Stats {
     let shared = Arc::new(Mutex::new(Shared::default()));
-    let m = M { h: h.clone(), shared: shared.clone() };
     let t0 = std::time::Instant::now();
-    let checker = m.checker().threads(crate::enumr::n_threads()).spawn_bfs().join();
-    let st = Stats { unique: checker.unique_state_count(), total: checker.state_count(), max_depth: checker.max_depth() };
+    // stateright's BFS hands out work in blocks of 1500 states, which serialises models whose
+    // transitions are expensive; the root set is therefore partitioned and one single-threaded
+    // checker per part runs on its own OS thread (histories from different roots never merge)
+    let all_roots = h.roots();
+    let nt = crate::enumr::n_threads().min(all_roots.len().max(1));
+    let mut parts: Vec<Vec<Vec<H::Act>>> = vec![Vec::new(); nt];
+    for (i, r) in all_roots.into_iter().enumerate() {
+        parts[i % nt].push(r);
+    }
+    let results: Vec<Stats> = std::thread::scope(|sc| {
+        let hs: Vec<_> = parts
+            .into_iter()
+            .map(|part| {
+                let m = M { h: h.clone(), shared: shared.clone(), roots: Arc::new(part) };
+                std::thread::Builder::new()
+                    .stack_size(256 << 20)
+                    .spawn_scoped(sc, move || {
+                        let checker = m.checker().threads(1).spawn_bfs().join();
+                        Stats { unique: checker.unique_state_count(), total: checker.state_count(), max_depth: checker.max_depth() }
+                    })
+                    .unwrap()
+            })
+            .collect();
+        hs.into_iter().map(|h| h.join().expect("checker thread")).collect()
+    });
+    let st = Stats { unique: results.iter().map(|r| r.unique).sum(), total: results.iter().map(|r| r.total).sum(), max_depth: results.iter().map(|r| r.max_depth).max().unwrap_or(0) };
     let g = shared.lock().unwrap();
     rep.states += st.unique as u64;
     rep.transitions += g.steps.max(st.total as u64);
